@@ -20,13 +20,25 @@
                        (what MClientConn.processSettings of the pinned code does)
      "NoSizeUpdate"    the encoder shrinks its own table but never signals it
      "OnlyFinalUpdate" several changes between two blocks: only the last one is signalled (RFC 7541 4.2)
-     "NoEvict"         the encoder adds an entry without evicting *)
+     "NoEvict"         the encoder adds an entry without evicting
+     "MutedNoInsert"   the decoder stops maintaining its table where the receiver stops collecting the header list
+                       (a block is only "skipped" for the application, never for the compression context)
+
+   The receiver of a header list (mhttp2.go MFramer.readMetaFrame, the user of the decoder) collects the fields the
+   decoder emits while the list stays within its header-list limit (SETTINGS_MAX_HEADER_LIST_SIZE, RFC 7540 6.5.2: a
+   field counts name + value + 32) and is well-formed (RFC 7540 8.1.2.1: no pseudo header after a regular one).  At the
+   first field that crosses the limit / is malformed it *mutes* the decoder (Decoder.SetEmitEnabled(false)): nothing
+   more is handed on, the frame is delivered Truncated, resp. refused with a stream error - and the connection stays
+   up.  So the rest of the block must still be decoded (RFC 7540 4.3, RFC 7541 2.3.2: the dynamic table is updated by
+   EVERY block that is decoded, emitted or not): every literal with incremental indexing behind the point of muting
+   enters the table with its name and value, because later blocks refer to it.                              (RcvOne) *)
 EXTENDS Integers, Sequences, FiniteSets, TLC, Json
 
 CONSTANTS Fields,   \* subset of DOMAIN FieldTab: the header fields a history may use
           Sizes,    \* values SETTINGS_HEADER_TABLE_SIZE may take
           MaxOps,   \* bound on the field / end-of-block operations of a history
           MaxSets,  \* bound on its SETTINGS changes (at most two between two blocks: "reduce, then grow")
+          Limits,   \* header-list limits of the receiving side (1000000 = Inf: the bare decoder, no receiver in front)
           Defects
 
 (* ---------------- data ---------------- *)
@@ -70,11 +82,29 @@ Add(t, e, max) == Evict(<<e>> \o t, max)
 At(t, i) == IF i \in 1..NStatic THEN Static[i] ELSE t[i - NStatic]     \* caller checks the range
 ValidIdx(t, i) == i \in 1..(NStatic + Len(t))
 
+(* ---------------- the receiver of the decoded fields (readMetaFrame's emit function) ----------------
+   room = what is left of the limit, reg = a regular field was seen, muted = emitting is switched off,
+   why = "ok" | "truncated" | "malformed", got = the fields collected *)
+Pseudo == {":method", ":scheme", ":authority", ":path", ":status"}
+Rcv0(limit) == [room |-> limit, reg |-> FALSE, muted |-> FALSE, why |-> "ok", got |-> <<>>]
+RcvOne(r, f) ==
+  IF r.muted THEN r
+  ELSE IF f.n \in Pseudo /\ r.reg THEN [r EXCEPT !.muted = TRUE, !.why = "malformed"]
+  ELSE IF Len(f.n) + Len(f.v) + 32 > r.room THEN [r EXCEPT !.muted = TRUE, !.why = "truncated"]
+  ELSE [r EXCEPT !.room = @ - (Len(f.n) + Len(f.v) + 32), !.got = Append(@, f), !.reg = @ \/ f.n \notin Pseudo]
+\* MetaHeadersFrame.checkPseudos on what was collected: a pseudo header twice, request and response pseudo headers mixed
+BadPseudos(fs) == \E i, j \in DOMAIN fs : /\ i < j /\ fs[i].n \in Pseudo /\ fs[j].n \in Pseudo
+                                          /\ (fs[i].n = fs[j].n \/ (fs[i].n = ":status") # (fs[j].n = ":status"))
+\* "ok" / "truncated": the list `got` is delivered (flagged Truncated); "malformed": stream error, nothing delivered
+Verdict(r) == IF r.why = "malformed" \/ BadPseudos(r.got) THEN "malformed" ELSE r.why
+
 (* ---------------- the decoder: meaning of a wire (sequence of representations) ----------------
    representation r: k \in {"idx","inc","lit","nev","upd"}; i = index (idx: whole field; literals: name index or 0;
    upd: the new size); n, v = literal name (when i = 0) and value *)
 Rep(k, i, n, v) == [k |-> k, i |-> i, n |-> n, v |-> v]
-DecState(t, max) == [tab |-> t, max |-> max, out |-> <<>>, ok |-> TRUE, start |-> TRUE, upds |-> <<>>]
+DecState(t, max, limit) == [tab |-> t, max |-> max, out |-> <<>>, ok |-> TRUE, start |-> TRUE, upds |-> <<>>, rcv |-> Rcv0(limit)]
+\* the table does not depend on rcv - unless the defect couples them
+Inserts(d) == ~("MutedNoInsert" \in Defects /\ d.rcv.muted)
 DecOne(d, r, allowed) ==
   IF ~d.ok THEN d
   ELSE IF r.k = "upd" THEN
@@ -82,15 +112,16 @@ DecOne(d, r, allowed) ==
          ELSE [d EXCEPT !.max = r.i, !.tab = Evict(d.tab, r.i), !.upds = Append(d.upds, r.i)]
   ELSE IF r.k = "idx" THEN
          IF ~ValidIdx(d.tab, r.i) THEN [d EXCEPT !.ok = FALSE]
-         ELSE [d EXCEPT !.out = Append(d.out, [n |-> At(d.tab, r.i).n, v |-> At(d.tab, r.i).v, s |-> FALSE]), !.start = FALSE]
+         ELSE LET f == [n |-> At(d.tab, r.i).n, v |-> At(d.tab, r.i).v, s |-> FALSE]
+              IN [d EXCEPT !.out = Append(d.out, f), !.start = FALSE, !.rcv = RcvOne(d.rcv, f)]
   ELSE IF r.i # 0 /\ ~ValidIdx(d.tab, r.i) THEN [d EXCEPT !.ok = FALSE]
   ELSE LET name == IF r.i = 0 THEN r.n ELSE At(d.tab, r.i).n
            f    == [n |-> name, v |-> r.v, s |-> (r.k = "nev")]
-       IN [d EXCEPT !.out = Append(d.out, f), !.start = FALSE,
-                    !.tab = IF r.k = "inc" THEN Add(d.tab, P(name, r.v), d.max) ELSE d.tab]
+       IN [d EXCEPT !.out = Append(d.out, f), !.start = FALSE, !.rcv = RcvOne(d.rcv, f),
+                    !.tab = IF r.k = "inc" /\ Inserts(d) THEN Add(d.tab, P(name, r.v), d.max) ELSE d.tab]
 RECURSIVE DecRun(_, _, _)
 DecRun(d, w, allowed) == IF w = <<>> THEN d ELSE DecRun(DecOne(d, Head(w), allowed), Tail(w), allowed)
-DecodeWire(w, t, max, allowed) == DecRun(DecState(t, max), w, allowed)
+DecodeWire(w, t, max, allowed, limit) == DecRun(DecState(t, max, limit), w, allowed)
 
 NV(fs) == [i \in DOMAIN fs |-> P(fs[i].n, fs[i].v)]
 MinOf(sq) == IF sq = <<>> THEN Inf ELSE CHOOSE x \in {sq[i] : i \in DOMAIN sq} : \A j \in DOMAIN sq : x <= sq[j]
@@ -118,14 +149,16 @@ Search(t, f) ==
 VARIABLES encTab, encMax, encMin, encUpd,     \* encoder: table, its maximum, smallest size since last signal, flag
           decTab, decMax, decAllowed,         \* decoder: table, its maximum, the size its side announced
           pend, wire, inb,                    \* ghost: smallest announced size since last block; current block
-          out, status, hist
-vars == <<encTab, encMax, encMin, encUpd, decTab, decMax, decAllowed, pend, wire, inb, out, status, hist>>
+          out, status, hist,
+          limit, got, verdict                 \* receiver: its header-list limit; what it collected from the last block
+vars == <<encTab, encMax, encMin, encUpd, decTab, decMax, decAllowed, pend, wire, inb, out, status, hist, limit, got, verdict>>
 
 Op(k, a) == [k |-> k, a |-> a]
 
 Init == /\ encTab = <<>> /\ encMax = 4096 /\ encMin = Inf /\ encUpd = FALSE
         /\ decTab = <<>> /\ decMax = 4096 /\ decAllowed = 4096
         /\ pend = Inf /\ wire = <<>> /\ inb = <<>> /\ out = <<>> /\ status = "idle" /\ hist = <<>>
+        /\ limit \in Limits /\ got = <<>> /\ verdict = ""
 
 NOps(h)  == Len(SelectSeq(h, LAMBDA o : o.k # "s"))
 NSets(h) == Len(SelectSeq(h, LAMBDA o : o.k = "s"))
@@ -146,8 +179,8 @@ Setting(v) ==
           /\ encMin' = IF "OnlyFinalUpdate" \in Defects THEN Inf ELSE Min(encMin, Min(v, 4096))
           /\ encUpd' = ("NoSizeUpdate" \notin Defects)
   /\ hist' = Append(hist, Op("s", v)) /\ status' = "idle"
-  /\ wire' = <<>> /\ inb' = <<>> /\ out' = <<>>
-  /\ UNCHANGED <<decTab, decMax>>
+  /\ wire' = <<>> /\ inb' = <<>> /\ out' = <<>> /\ got' = <<>> /\ verdict' = ""
+  /\ UNCHANGED <<decTab, decMax, limit>>
 
 Field(k) ==
   /\ Open /\ NOps(hist) + 1 < MaxOps           \* room for the EndBlock
@@ -165,18 +198,20 @@ Field(k) ==
                      ELSE encTab
         /\ encUpd' = FALSE /\ encMin' = Inf
         /\ inb' = Append(CurIn, f)
-  /\ hist' = Append(hist, Op("f", k)) /\ status' = "idle" /\ out' = <<>>
-  /\ UNCHANGED <<encMax, decTab, decMax, decAllowed, pend>>
+  /\ hist' = Append(hist, Op("f", k)) /\ status' = "idle" /\ out' = <<>> /\ got' = <<>> /\ verdict' = ""
+  /\ UNCHANGED <<encMax, decTab, decMax, decAllowed, pend, limit>>
 
-(* the block travels; the decoder runs it *)
+(* the block travels; the decoder runs it to its end whatever the receiver makes of the list: `out` is what the block
+   means, `got` what the receiver hands on.  None of the verdicts ends the connection: the history goes on *)
 EndBlock ==
   /\ status = "idle" /\ inb # <<>>
-  /\ LET d == DecodeWire(wire, decTab, decMax, decAllowed) IN
+  /\ LET d == DecodeWire(wire, decTab, decMax, decAllowed, limit) IN
        /\ decTab' = d.tab /\ decMax' = d.max /\ out' = d.out
+       /\ got' = d.rcv.got /\ verdict' = Verdict(d.rcv)
        /\ status' = IF d.ok /\ d.max <= decAllowed /\ SignalOK(d.upds, pend, decMax) THEN "done" ELSE "error"
   /\ pend' = Inf
   /\ hist' = Append(hist, Op("e", Len(inb)))
-  /\ UNCHANGED <<encTab, encMax, encMin, encUpd, decAllowed, wire, inb>>
+  /\ UNCHANGED <<encTab, encMax, encMin, encUpd, decAllowed, wire, inb, limit>>
 
 Next == EndBlock \/ (\E k \in Fields : Field(k)) \/ (\E v \in Sizes : Setting(v))
 Spec == Init /\ [][Next]_vars
@@ -195,11 +230,18 @@ RoundTrip     == status = "done" => SameList(out, inb)
 TablesEqual   == status = "done" => decTab = encTab /\ decMax = encMax
 SizeBound     == TabSize(encTab) <= encMax /\ TabSize(decTab) <= decMax
 SensitiveKept == status = "done" => SensitiveOK(wire, inb, out)
+\* the receiver hands on a prefix of the list within its limit - the whole list iff the verdict is "ok" - or nothing
+RECURSIVE ListSize(_)
+ListSize(fs) == IF fs = <<>> THEN 0 ELSE Len(Head(fs).n) + Len(Head(fs).v) + 32 + ListSize(Tail(fs))
+Delivered == status = "done" =>
+   /\ Len(got) <= Len(inb) /\ SameList(got, SubSeq(inb, 1, Len(got))) /\ ListSize(got) <= limit
+   /\ (verdict = "ok") = (Len(got) = Len(inb) /\ ~BadPseudos(got))
+   /\ verdict = "truncated" => ListSize(SubSeq(inb, 1, Len(got) + 1)) > limit
 
 (* one CASE per maximal history of complete blocks; the fields travel with the case so that the driver has no table of its own *)
 CaseOps == [i \in DOMAIN hist |->
               IF hist[i].k = "f"
               THEN [k |-> "f", a |-> hist[i].a, n |-> FieldTab[hist[i].a].n, v |-> FieldTab[hist[i].a].v, s |-> FieldTab[hist[i].a].s]
               ELSE [k |-> hist[i].k, a |-> hist[i].a, n |-> "", v |-> "", s |-> FALSE]]
-EmitCase == (status \in {"done", "error"} /\ NOps(hist) >= MaxOps - 1) => PrintT(<<"CASE", ToJson([ops |-> CaseOps])>>)
+EmitCase == (status \in {"done", "error"} /\ NOps(hist) >= MaxOps - 1) => PrintT(<<"CASE", ToJson([ops |-> CaseOps, limit |-> limit])>>)
 ====
